@@ -21,7 +21,8 @@ from ..subject import repo_path
 
 RULE = (
     "stateful (Hypothesis RuleBasedStateMachine) per plugin over one scratch output directory: rules run(model list, "
-    "PYTHONHASHSEED) = real `python -m generator` sub-process, plant_stale (a file matching the plugin's ownership "
+    "PYTHONHASHSEED, path spelling: absolute from the repository / absolute from an unrelated cwd / all relative) "
+    "= real `python -m generator` sub-process, plant_stale (a file matching the plugin's ownership "
     "pattern, or an overwritten generated file), rerun; invariant after every run: {relative path -> sha256} of the "
     "plugin-owned files equals the reference for that (plugin, model list), computed once in a fresh directory, in "
     "another process, under a different hash seed; plus one in-process history per plugin (the plugin entry point called "
